@@ -59,6 +59,11 @@ def shadow(real):
                 return _convert_proxy(real, x)
             if type(x) is SBool:
                 return real(bool(x))
+            if P.STANDINS["on"] and real is float:
+                import sympy
+                if isinstance(x, sympy.Basic) and any(sy in P.STANDINS["map"] for sy in x.free_symbols):
+                    r = P.from_sympy(x)
+                    return SNum(T.V("float", T.to_real(P.as_v(r).re)), float) if P.as_v(r).kind != "complex" else r
             if isinstance(x, builtins.str) and real in (int, float, complex):
                 r = {int: P.parse_int, float: P.parse_float, complex: P.parse_complex}[real](x)
                 if r is not None:
